@@ -47,7 +47,12 @@ def run(case, full=False):
                 from geneticengine.representations.tree.operators import FullInitializer
 
                 init = FullInitializer(w.max_depth)
-            _, best = w.search(case["alg"], case["budget"], case["popsize"], fitness=ff, minimize=case["minimize"], initializer=init)
+            step = None
+            if case["alg"] == "gp" and case.get("gp_step") == "crossover-heavy":
+                from vk.steps import build_step
+
+                step = build_step(["par", [["elitism"], ["seq", [["tournament", 3, False], ["crossover", 1.0], ["mutation", 0.5]]]], [1, 9]])
+            _, best = w.search(case["alg"], case["budget"], case["popsize"], fitness=ff, minimize=case["minimize"], initializer=init, step=step)
             if best is not None:
                 best_s = canon_str(canon(best.get_phenotype(), info))
                 best_f = best.get_fitness(w.last_problem).fitness_components[0]
